@@ -472,6 +472,13 @@ class Evaluator(object):
                 if not done:
                     self._make_opaque(self._written_names(s.body + s.orelse), scope, 'written in a loop', s)
                 continue
+            if isinstance(s, ast.Delete):
+                for t in s.targets:
+                    if isinstance(t, ast.Name):
+                        scope.env.pop(t.id, None)
+                    elif isinstance(t, ast.Subscript) and isinstance(t.value, ast.Name):
+                        self._make_opaque([t.value.id], scope, 'entry deleted', s)
+                continue
             if isinstance(s, ast.While):
                 self._make_opaque(self._written_names(s.body + s.orelse), scope, 'written in a loop', s)
                 continue
@@ -714,6 +721,46 @@ class Evaluator(object):
             items.append((kt, vt))
         return Term('dict', items=items, node=node, module=scope.module)
 
+    def _comp_elems(self, node, scope):
+        """Element terms of a list / set comprehension or generator expression over finite literal iterables."""
+        out = []
+
+        def rec(gi, sc):
+            if gi == len(node.generators):
+                out.append(self.eval(node.elt, sc))
+                return
+            g = node.generators[gi]
+            elems = self.iter_elems(self.eval(g.iter, sc))
+            if elems is None:
+                raise Unsupported('comprehension over a non-literal iterable')
+            if len(elems) * max(1, len(out)) > 20000:
+                raise Unsupported('comprehension too large')
+            for e in elems:
+                inner = sc.child()
+                if not self._bind_target(g.target, e, inner.env):
+                    raise Unsupported('comprehension target not supported')
+                keep = True
+                for c in g.ifs:
+                    t = self.eval(c, inner)
+                    if t.kind != 'const':
+                        raise Unsupported('undecidable comprehension filter')
+                    if not t.value:
+                        keep = False
+                        break
+                if keep:
+                    rec(gi + 1, inner)
+        rec(0, scope)
+        return out
+
+    def _e_ListComp(self, node, scope):
+        return Term('list', args=self._comp_elems(node, scope), node=node, module=scope.module)
+
+    def _e_GeneratorExp(self, node, scope):
+        return Term('list', args=self._comp_elems(node, scope), node=node, module=scope.module)
+
+    def _e_SetComp(self, node, scope):
+        return Term('set', args=self._comp_elems(node, scope), node=node, module=scope.module)
+
     def _e_Lambda(self, node, scope):
         return Term('lambda', node=node, module=scope.module)
 
@@ -814,6 +861,8 @@ class Evaluator(object):
             return self.self_attr(scope.self_cls, node.attr, node, scope, after=after.qualname)
         # dotted externals (np.pi, np.lib.scimath.sqrt) and Class.attr
         base = self.eval(node.value, scope)
+        if node.attr == '__name__' and base.kind in ('name', 'func') and base.name:
+            return Term('const', value=base.name.split('.')[-1], node=node, module=scope.module)
         if base.kind == 'name':
             ci = base.value if hasattr(base.value, 'mro') else None
             if ci is not None and not ci.qualname.startswith('voluptuous.'):
@@ -834,6 +883,16 @@ class Evaluator(object):
     def _e_Call(self, node, scope):
         func = node.func
         # method calls on evaluated receivers: .extend / .copy
+        if isinstance(func, ast.Attribute) and func.attr in ('items', 'keys', 'values') and not node.args and not node.keywords:
+            recv = self.eval(func.value, scope)
+            if recv.kind == 'dict':
+                if func.attr == 'items':
+                    elems = [Term('tuple', args=[k, v], node=k.node, module=k.module) for k, v in recv.items]
+                elif func.attr == 'keys':
+                    elems = [k for k, _ in recv.items]
+                else:
+                    elems = [v for _, v in recv.items]
+                return Term('list', args=elems, node=node, module=scope.module)
         if isinstance(func, ast.Attribute) and func.attr in ('extend', 'copy', 'update'):
             recv = self.eval(func.value, scope)
             if func.attr == 'copy' and not node.args and recv.kind in ('dict', 'list', 'schema'):
@@ -903,6 +962,24 @@ class Evaluator(object):
                     return Term('const', value=complex(*[a.value for a in args]), node=node, module=module)
                 except (TypeError, ValueError):
                     pass
+            if callee.name == 'getattr' and len(args) == 2 and not kwargs and args[1].kind == 'const' and isinstance(args[1].value, str) \
+                    and args[0].kind in ('name', 'func'):
+                if args[1].value == '__name__':
+                    return Term('const', value=args[0].name.split('.')[-1], node=node, module=module)
+                if args[0].kind == 'name':
+                    dotted = args[0].name + '.' + args[1].value
+                    const = NUMPY_CONSTANTS.get(dotted)
+                    if const is not None:
+                        return Term('const', value=const, node=node, module=module, name=dotted)
+                    kind, obj = self.idx.resolve_dotted(dotted)
+                    if kind != 'external':
+                        return self._from_resolution(kind, obj, node, module, args[1].value)
+                    return Term('name', name=dotted, node=node, module=module)
+            if callee.name == 'dict.fromkeys' and 1 <= len(args) <= 2 and not kwargs:
+                keys = self.iter_elems(args[0])
+                if keys is not None:
+                    val = args[1] if len(args) == 2 else Term('const', value=None, node=node, module=module)
+                    return Term('dict', items=[(k, val) for k in keys], node=node, module=module)
             if callee.name == 'voluptuous.Schema':
                 return self._make_schema(args, kwargs, node, scope)
             return Term('call', name=short_, callee=callee, args=args, kwargs=kwargs, node=node, module=module)
